@@ -54,6 +54,22 @@ def stepV4 (op : String) (args : List String) : Option String :=
   | "v4enc", toks => do
     let p ← parsePkt4 toks
     pure (showRes hex (enc4 p))
+  | "v4fix", [h] => do
+    let b ← unhex h
+    pure (match dec4 b with
+      | .ok p =>
+        match enc4 p with
+        | .ok b1 =>
+          (match dec4 b1 with
+           | .ok p1 =>
+             (match enc4 p1 with
+              | .ok b2 => "ok " ++ hex b1 ++ " " ++ hex b2
+              | _ => "ok " ++ hex b1 ++ " encfail")
+           | _ => "ok " ++ hex b1 ++ " err")
+        | .err => "encerr"
+        | .panic => "panic"
+      | .err => "err"
+      | .panic => "panic")
   | "v4optsdec", [h] => do
     let b ← unhex h
     pure (match optsFromBytes Opts.empty b false with
